@@ -197,12 +197,13 @@ func (rs *bodyStream) Read(p []byte) (int, error) {
 	m := len(p) - n
 	remain := rs.contentLength - rs.offset
 
-	if m > remain {
+	// contentLength is -2 for an identity body (read until the connection is closed): no bound then
+	if rs.contentLength >= 0 && m > remain {
 		m = remain
 	}
 
 	if conn, ok := rs.reader.(io.Reader); ok {
-		m, err = conn.Read(p[n:])
+		m, err = conn.Read(p[n : n+m])
 	} else {
 		var tmp []byte
 		tmp, err = rs.reader.Peek(m)
